@@ -23,7 +23,8 @@ CEREMONY = attest.CATALOGUE["ceremony"] + attest.CATALOGUE["none"]
 NOT_C02 = {"R.cred-type", "R.bs-without-be", "R.tb-not-supported", "R.at-clear-data-present"}
 # deviations applied by this harness around the simulator (X. = expectation-side)
 HARNESS_FAULTS = ["X.origin-is-proper-prefix-of-expected", "X.origin-is-infix-of-expected", "X.alg-not-allowed",
-                  "X.alg-unregistered-not-allowed", "X.uv-clear-required-up-waived", "X.origin-list-lacks-it"]
+                  "X.alg-unregistered-not-allowed", "X.uv-clear-required-up-waived", "X.origin-list-lacks-it",
+                  "X.expected-origin-has-trailing-slash", "X.expected-origin-has-surrounding-space"]
 
 
 def work(tasks, idx):
@@ -57,6 +58,11 @@ def work(tasks, idx):
             over["origin"] = "https://example.com"
         if "X.origin-list-lacks-it" in xs:
             over["origin"] = ["https://a.example", req.origin + "x", "x" + req.origin]
+        # the policy names a *different string* than the one the client reports: exactness is the rule, in both forms
+        if "X.expected-origin-has-trailing-slash" in xs:
+            over["origin"] = req.origin + "/" if variant % 2 else [req.origin + "/"]
+        if "X.expected-origin-has-surrounding-space" in xs:
+            over["origin"] = " " + req.origin if variant % 2 else [req.origin + " "]
         if "X.alg-not-allowed" in xs or "X.alg-unregistered-not-allowed" in xs:
             over["algs"] = [a for a in cases.ALL_ALGS if a != choice[2]][: 3 + variant % 5]
         if "X.uv-clear-required-up-waived" in xs:
